@@ -221,6 +221,12 @@ pub fn benign_doc(h: &str) -> String {
 /// Hostile names: the shared alphabet plus strings aimed at the quoting of each target.
 pub fn hostile_name_alphabet() -> Vec<String> {
     let mut v = hostile_names();
+    // every one- and two-character string over the escape-relevant characters
+    for s in mclib::progs::escape_pair_names() {
+        if !v.contains(&s) {
+            v.push(s);
+        }
+    }
     for s in [
         "\"#",
         "#\"",
